@@ -824,7 +824,7 @@ func cmdC02(seed int64, tier, outDir string) {
 	}
 	n *= optBoost
 	id := 0
-	for _, p := range c02Corpus() {
+	for _, p := range append(c02Corpus(), pgStrCorpus()...) {
 		id++
 		run.runCase(p, id)
 	}
